@@ -232,10 +232,18 @@ impl<F: Write + Seek> MiniAllocator<F> {
     ) -> io::Result<u32> {
         debug_assert_ne!(start_mini_sector, consts::END_OF_CHAIN);
         let mut last_mini_sector = start_mini_sector;
+        // The chain may come from a damaged file that was opened under
+        // permissive validation, so look entries up with bounds checks and
+        // give up if the chain is longer than the MiniFAT (i.e. has a loop).
+        let mut num_steps = 0;
         loop {
-            let next = self.minifat[last_mini_sector as usize];
+            let next = self.next_mini_sector(last_mini_sector)?;
             if next == consts::END_OF_CHAIN {
                 break;
+            }
+            num_steps += 1;
+            if num_steps > self.minifat.len() {
+                invalid_data!("Mini chain contains a loop");
             }
             last_mini_sector = next;
         }
@@ -327,8 +335,17 @@ impl<F: Write + Seek> MiniAllocator<F> {
 
     /// Deallocates the specified mini sector.
     fn free_mini_sector(&mut self, mini_sector: u32) -> io::Result<()> {
-        if self.minifat[mini_sector as usize] == consts::FREE_SECTOR {
-            invalid_input!("sector {} freed twice", mini_sector);
+        match self.minifat.get(mini_sector as usize) {
+            None => invalid_data!(
+                "Found reference to mini sector {}, but MiniFAT has only {} \
+                 entries",
+                mini_sector,
+                self.minifat.len()
+            ),
+            Some(&consts::FREE_SECTOR) => {
+                invalid_input!("sector {} freed twice", mini_sector)
+            }
+            Some(_) => {}
         }
         self.set_minifat(mini_sector, consts::FREE_SECTOR)?;
         self.free_mini_sectors.push(mini_sector);
@@ -357,7 +374,7 @@ impl<F: Write + Seek> MiniAllocator<F> {
     ) -> io::Result<()> {
         let mut mini_sector = start_mini_sector;
         while mini_sector != consts::END_OF_CHAIN {
-            let next = self.minifat[mini_sector as usize];
+            let next = self.next_mini_sector(mini_sector)?;
             self.free_mini_sector(mini_sector)?;
             mini_sector = next;
         }
@@ -370,7 +387,7 @@ impl<F: Write + Seek> MiniAllocator<F> {
         &mut self,
         mini_sector: u32,
     ) -> io::Result<()> {
-        let next = self.minifat[mini_sector as usize];
+        let next = self.next_mini_sector(mini_sector)?;
         self.set_minifat(mini_sector, consts::END_OF_CHAIN)?;
         self.free_mini_chain(next)?;
         Ok(())
